@@ -389,6 +389,7 @@ prop("C16",
           "then io.EOF only. A bubble stall is re-executed in real-time mode and judged by the two-dump rule. "
           "Further families: a network that is dead from the first datagram, transport writes that fail while reads go on, tubes requested around the Stop instant, a duplicate-ack storm followed by close (with the muxers' idle time-out near and far), and second copies of set-up frames arriving in trains across the few milliseconds a Stop takes. "
           "A closing goroutine held up for 5-80 ms at the instrumented point inside sender.Close after request/response traffic has brought the retransmission period down to milliseconds (real time); close during initiation after a few scheduler turns. "
+          "Directed close histories with the muxers' idle time-out an hour away (only the tube's own timers can finish the close; only the end those timers govern is judged): FINs that cross followed by total loss towards one end, a passive close whose FIN is never acknowledged, an unreliable tube closed before its initiation completed while a reader waits, the acceptor's response and FIN arriving back to back. "
           "Non-trivial = an "
           "execution with a distinct interleaving signature (hash of the observed order of hook points).",
      level_text="Exploration of programs x schedules x loss patterns with the race detector, virtual-time bounded-termination "
